@@ -14,7 +14,7 @@
              the recorded frames, closure, auth queries and daemon state.
    monitor : the property itself, on the recording alone. *)
 From Coq Require Import List NArith ZArith Bool.
-From NSQV Require Import model.Judge model.Names model.Gate model.GateRe.
+From NSQV Require Import model.Judge model.Names model.Gate model.GateRe model.GateHttp.
 Import ListNotations.
 Open Scope bool_scope.
 
@@ -33,14 +33,18 @@ Inductive group :=
     (topics : list (str * N))                     (* topic, message_count *)
     (chans : list (str * str * N)).               (* topic, channel, client_count *)
 
-Inductive listener := Plain | Https.
-Inductive probe_kind := PPing | PCreateTopic (t : str) | PPub (t : str) | PNoSuch | PStats.
-Inductive probe := Probe (l : listener) (k : probe_kind) (status : N) (topics : list (str * N)).
+(* how a probe reaches the daemon: one of its two HTTP listeners, or the in-process API
+   (GetTopic / GetChannel / PutMessage: the driver's way to give a daemon some state when
+   no listener would serve a request) *)
+Inductive via := Via (l : listener) | Direct.
+(* status 0: the daemon has no such listener (nothing was sent) *)
+Inductive probe := Probe (v : via) (q : hreq) (status : N) (topics : list (str * N)) (chans : list (str * str * N)).
 
 Inductive case :=
 | Conn (raw : config) (script : list answer) (conns : list (list group))
-| Http (raw : config) (probes : list probe)
-| Start (raw : config) (started : bool).
+| Http (raw : config) (ad : addrs) (has_plain has_https : bool) (probes : list probe)
+       (* the listeners the daemon reports (RealHTTPAddr / RealHTTPSAddr have a port) *)
+| Start (raw : config) (ad : addrs) (started : bool) (has_plain has_https : bool).
 
 (* ------------------------------------------------------------------ comparison helpers *)
 Definition ecode_b := ecode_eqb.
@@ -222,35 +226,46 @@ Fixpoint monitor_conns (cfg : config) (o : oracle) (t : list (str * N)) (c : lis
   end.
 
 (* ------------------------------------------------------------------ HTTP probes *)
-Definition probe_model (cfg : config) (w : list (str * N)) (p : probe) : N * list (str * N) :=
+(* the in-process calls: GetTopic(t) / GetTopic(t).PutMessage / GetTopic(t).GetChannel(c) *)
+Definition direct_step (w : world) (q : hreq) : world :=
+  match q with
+  | HCreateTopic t => mkW (topic_touch t 0 (w_topics w)) (w_chans w)
+  | HPub t => mkW (topic_touch t 1 (w_topics w)) (w_chans w)
+  | HCreateChannel t c => mkW (topic_touch t 0 (w_topics w)) (chan_touch t c 0 (w_chans w))
+  | _ => w
+  end.
+
+Definition probe_model (cfg : config) (ad : addrs) (w : world) (p : probe) : N * world :=
   match p with
-  | Probe l k _ _ =>
-      let refused := match l with Plain => http_plain_refused cfg | Https => https_refused cfg end in
-      if refused then (403%N, w)
-      else match k with
-           | PPing | PStats => (200%N, w)
-           | PCreateTopic t => if is_valid_name t then (200%N, topic_touch t 0 w) else (400%N, w)
-           | PPub t => if is_valid_name t then (200%N, topic_touch t 1 w) else (400%N, w)
-           | PNoSuch => (404%N, w)
-           end
+  | Probe (Via l) q _ _ _ =>
+      match http_exchange cfg ad l w q with
+      | Some r => r
+      | None => (0%N, w)
+      end
+  | Probe Direct q _ _ _ => (200%N, direct_step w q)
   end.
 
-Fixpoint http_agree (cfg : config) (w : list (str * N)) (ps : list probe) : bool :=
+Fixpoint http_agree (cfg : config) (ad : addrs) (w : world) (ps : list probe) : bool :=
   match ps with
   | [] => true
-  | (Probe l k status topics as p) :: rest =>
-      let '(st, w') := probe_model cfg w p in
-      N.eqb st status && same_set topic_eqb w' topics && http_agree cfg w' rest
+  | (Probe _ _ status topics chans as p) :: rest =>
+      let '(st, w') := probe_model cfg ad w p in
+      N.eqb st status && world_agrees true w' topics chans && http_agree cfg ad w' rest
   end.
 
-Fixpoint http_monitor (cfg : config) (w : list (str * N)) (ps : list probe) : bool :=
+(* the property on the recording alone: with TLS required every plaintext request, of
+   whatever endpoint, is answered 403 (or there is no plaintext listener at all) and the
+   daemon's topics, message counts and channels are what they were before it; nothing else
+   is ever answered 403 *)
+Fixpoint http_monitor (cfg : config) (t : list (str * N)) (c : list (str * str * N)) (ps : list probe) : bool :=
   match ps with
   | [] => true
-  | Probe l k status topics :: rest =>
-      (match l, c_tls_required cfg with
-       | Plain, TlsRequired => N.eqb status 403 && same_set topic_eqb w topics
-       | _, _ => negb (N.eqb status 403)
-       end) && http_monitor cfg topics rest
+  | Probe v q status topics chans :: rest =>
+      (match v, c_tls_required cfg with
+       | Via Plain, TlsRequired => (N.eqb status 403 || N.eqb status 0) && unchanged true t c topics chans
+       | Via _, _ => negb (N.eqb status 403) && (negb (N.eqb status 0) || unchanged true t c topics chans)
+       | Direct, _ => true
+       end) && http_monitor cfg topics chans rest
   end.
 
 (* ------------------------------------------------------------------ *)
@@ -263,12 +278,17 @@ Definition judge (c : case) : N :=
           verdict (agree_conns cfg script world_empty conns)
                   (monitor_conns cfg script [] [] conns)
       end
-  | Http raw probes =>
+  | Http raw ad hp hs probes =>
       match startup raw with
       | None => verdict false true
-      | Some cfg => verdict (http_agree cfg [] probes) (http_monitor cfg [] probes)
+      | Some cfg => verdict (Bool.eqb hp (plain_listens cfg ad) && Bool.eqb hs (https_listens cfg ad) &&
+                             http_agree cfg ad world_empty probes)
+                            (http_monitor cfg [] [] probes)
       end
-  | Start raw started =>
-      let ok := Bool.eqb (match startup raw with Some _ => true | None => false end) started in
+  | Start raw ad started hp hs =>
+      let ok := match startup raw with
+                | Some cfg => started && Bool.eqb hp (plain_listens cfg ad) && Bool.eqb hs (https_listens cfg ad)
+                | None => negb started
+                end in
       verdict ok ok
   end.
